@@ -370,8 +370,13 @@ impl Gen {
         };
         if matches!(s, T::B(_)) { self.shape("quoted-with-blank"); }
         let t = qt(s.clone(), p.clone(), o.clone());
-        let asserted = self.r.chance(1, 2);
-        if asserted { self.shape("quoted-and-asserted"); self.add(&g, s, p, o); } else { self.shape("quoted-not-asserted"); }
+        // asserted in the same graph / not at all / only in another graph / in both
+        match self.r.below(6) {
+            0 | 1 => { self.shape("quoted-and-asserted"); self.add(&g, s, p, o); }
+            2 | 3 => { self.shape("quoted-not-asserted"); }
+            4 => { let g2 = self.graph(); if g2 != g { self.shape("quoted-asserted-in-another-graph-only"); } else { self.shape("quoted-and-asserted"); } self.add(&g2, s, p, o); }
+            _ => { let g2 = self.graph(); if g2 != g { self.shape("quoted-asserted-in-both-graphs"); } else { self.shape("quoted-and-asserted"); } self.add(&g, s.clone(), p.clone(), o.clone()); if g2 != g { self.add(&g2, s, p, o); } }
+        }
         match self.r.below(4) {
             0 => { let s2 = self.subject(); let pp = self.pred(); self.add(&g, s2, pp, t.clone()); self.shape("quoted-as-object"); }
             1 => { // annotation of an annotation
